@@ -11,33 +11,46 @@ From Lib Require Import CorrLib. From Model Require Import Events. From Corr Req
 COQ_CASE_TYPE = 'case'
 COQ_AGREE = 'agree'
 COQ_SHARD = 150
+IMPL_TIMEOUT = 3600          # the thorough tier (24 000 histories) on a machine shared with many other checks
 REPLAY_KIND = 'history'
 EXHAUSTIVE = {'quick': False, 'thorough': False}
-RULE = ('seeded random histories of 5..40 operations (create / attribute assignment / multi-column set / syncUpdate / destroySelf / '
-        'expire() and sync() of held instances -- an expire mostly followed by an assignment / set / destroy of the same instance with no read '
-        'in between / '
+RULE = ('seeded random histories of 5..40 operations (create / attribute assignment / multi-column set / destroySelf / the three flush points of '
+        'a lazy instance: syncUpdate(), sync(), pickle.dumps() / its discard point expire() -- an expire mostly followed by an assignment / set / '
+        'destroy / flush of the same instance with no read in between / '
         'get with and without a cleared cache / select) over an eager and a lazyUpdate class -- each, in 40 % of the cases, a plain subclass '
         '(base declares a and b, subclass c; listeners registered on the base before the subclass statement -- interleaved with 0..3 that are '
         'garbage-collected before it --, on the subclass, and on the base afterwards) --, each with 0..6 listeners drawn from the six '
         'row signals x {log, kwargs[c]=v, kwargs.pop(c), post_funcs.append}; streams: valid (no ill-typed value), failing (ill-typed values, missing required column, unknown/destroyed instances), keyset (assignments '
         'whose receivers add/remove a key: delegated to set()), raising (0..3 more listeners per class that raise once, or append a callback '
         'that raises once, at any of the six signals; the history goes on: the later successful operations are judged), chain (0..8 listeners registered before/between/after the class statements of '
-        'a three-level InheritableSQLObject chain, then creations at every level in random order, some of them failing; chain-raising: '
+        'a three-level InheritableSQLObject chain, then creations at every level in random order, some of them failing, interleaved (45 %) with '
+        'updates of the instances the creations returned: attribute assignments of own and inherited columns and set() of any subset of the '
+        'columns in any keyword order, ill-typed values in the failing stream; chain-raising: '
         '1..3 one-shot raising listeners/callbacks at the create / create-finished signals of the chain). '
         'Non-trivial = at least one signal reached a listener and a row was written; distinct = distinct (listeners, operations).')
 EXPLANATION = ('Theorems C19_* (Coq, all listener tables and all histories) over Model/Events.v; correspondence: the model evaluated by '
                'vm_compute against the real SQLObject on sqlite, step by step: outcome, the ordered trace of signal deliveries (signal, class, '
                'instance id, kwargs as found, listener), post-callback runs and INSERT/UPDATE/DELETE statements, both raw tables, pending '
-               'values and the row_update_sig_suppress flag of every instance; for the chain also the receivers each class got by propagation. '
+               'values and the row_update_sig_suppress flag of every instance; for the chain also the receivers each class got by propagation, '
+               'and for every update of a chain instance the deliveries per class (the generated setters of inherited columns pass the '
+               'assignment up the chain) and the three tables. '
                'After every operation the harness also reads every column attribute (inherited and own) of every held instance: the oracle '
                'requires each to be readable and equal to the stored row (overlaid with the pending values of a lazy instance). '
-               'The oracle recomputes the documented event sequence of every operation that must succeed and compares it with the observation.')
+               'The oracle recomputes the documented event sequence of every operation that must succeed and compares it with the observation; '
+               'a flush (syncUpdate / sync / pickle.dumps) must be one UPDATE + one after-event and leave nothing held back, expire() must '
+               'deliver and write nothing and drop what was held back. For an update of a chain instance the oracle requires the stored rows, '
+               'the exact sequence the setters of the chain are known to produce, and -- the property -- the before-event once before and the '
+               'after-event once after the UPDATEs for the receivers of the instance\'s class; the last requirement fails on the unchanged '
+               'tree exactly for updates that involve an inherited column or a child\'s set() (open finding inheritable_child_update_events; '
+               'Coq: C19_chain_update_refuted, guarded C19_chain_update_partial).')
 TRUSTED_BASE = [
     'Coq 8.16.1 kernel + vm_compute (examples, correspondence); no native_compute',
-    'Model/Events.v is hand-written after main.py (__init__/_create/_SO_finishCreate/_SO_setValue/set/syncUpdate/destroySelf/get), '
-    'events.py (listen/_makeSubclassConnectionsPost) and inheritance/__init__.py (_create/destroySelf); tied to the code only by the correspondence run',
+    'Model/Events.v is hand-written after main.py (__init__/_create/_SO_finishCreate/_SO_setValue/set/syncUpdate/sync/expire/__getstate__/destroySelf/get), '
+    'events.py (listen/_makeSubclassConnectionsPost) and inheritance/__init__.py (_create/destroySelf/set and the setters InheritableSQLMeta.addColumn '
+    'generates for inherited columns); tied to the code only by the correspondence run',
     'modelled, not verified: PyDispatcher 2.0.7 (receivers of one (sender, signal) are called in connection order; positional arguments passed through), '
-    'sqlite (AUTOINCREMENT ids, UPDATE/DELETE of a missing row is a no-op), Python dict insertion order',
+    'sqlite (AUTOINCREMENT ids, UPDATE/DELETE of a missing row is a no-op), Python dict insertion order, pickle (dumps calls __getstate__ once; '
+    'the fixture classes are registered in the harness module so that dumps succeeds)',
     'fixture: columns a=IntCol() b=StringCol(default=None) c=IntCol(default=7); values None / small ints / short lowercase strings; '
     'listeners are the programs log / kwargs[c]=v / kwargs.pop(c) / post_funcs.append / raise once / append a callback that raises once; '
     'listeners never touch the database, '
@@ -46,9 +59,11 @@ TRUSTED_BASE = [
     'events out of the trace and the oracle alone judges them; they are not combined with raising listeners; '
     'a quarter of the listeners is registered with weak=False and referenced by nobody but the dispatcher; '
     'never add a non-column key; one connection, one thread, no transactions; chain listeners only log, append callbacks, or raise once at the '
-    'create / create-finished signals (a raising destroy listener inside the clean-up of a failed chain creation is not modelled); '
+    'create / create-finished signals (a raising destroy listener inside the clean-up of a failed chain creation is not modelled; chain listeners '
+    'never rewrite the dict of an update event and never raise at the update signals); chain instances are eager and are never destroyed or expired; '
     'every case starts with the per-thread list of postponed RowCreatedSignals removed if a previous case left one (cases are judged on their own)',
-    'the instance an operation uses is the one its create returned (fetches never replace it)',
+    'the instance an operation uses is the one its create returned (fetches never replace it); an update of a chain instance names the creation '
+    'that returned it',
     'plain-subclass variation: the model has no notion of it -- a plain subclass must behave like a plain class with the listeners cloned from '
     'its base at the class statement followed by its own; base listeners registered later must stay silent (numbered from 1000 in the harness)',
     'an operation that makes no progress for 4 s is recorded as OpTimeout and ends its history (deadlock guard)',
@@ -280,7 +295,8 @@ def plain_case(rng, stream):
         elif r < 0.62:
             ops.append(['set', k, rid, rand_kw(rng, bad, need_a=False) if rng.random() < 0.93 else []])
         elif r < 0.70:
-            ops.append(['sync', k, rid])
+            # the flush points of a lazy instance: syncUpdate(), sync(), pickle.dumps()
+            ops.append([rng.choice(['sync', 'sync', 'syncfull', 'pickle']), k, rid])
         elif r < 0.76:
             # expire() / sync() of a held instance; an expire is mostly followed by an operation on the same instance
             # with no read in between
@@ -291,11 +307,12 @@ def plain_case(rng, stream):
                 nxt = rng.random()
                 ops.append(['assign', k, rid, c, rand_val(rng, c, bad)] if nxt < 0.5 else
                            ['set', k, rid, rand_kw(rng, bad, need_a=False)] if nxt < 0.75 else
-                           ['destroy', k, rid] if nxt < 0.85 else ['sync', k, rid])
+                           ['destroy', k, rid] if nxt < 0.85 else
+                           rng.choice([['sync', k, rid], ['syncfull', k, rid], ['pickle', k, rid]]))
                 if rng.random() < 0.5:
                     noread.append(len(ops) - 1)
             else:
-                ops.append(['syncfull', k, rid])
+                ops.append(['syncfull', k, rid] if rng.random() < 0.5 else ['pickle', k, rid])
         elif r < 0.82:
             ops.append(['destroy', k, rid])
         elif r < 0.92:
@@ -331,7 +348,7 @@ def keyset_case(rng):
 
 def chain_case(rng, failing, raising=False):
     n = rng.choice([0, 1, 2, 3, 4, 5, 6, 8])
-    sigw = rng.choice([['create', 'created'], ['create', 'created'], SIGS])
+    sigw = rng.choice([['create', 'created'], ['create', 'created'], SIGS, SIGS, ['update', 'updated', 'created']])
     lst = [rand_listener(rng, sigw, rewrite=False) for _ in range(n)]
     lst = [[s, a if a[0] in ('log', 'post') else ['log']] for s, a in lst]
     if raising:
@@ -347,8 +364,22 @@ def chain_case(rng, failing, raising=False):
     script += slots[0] + [['def', 1]] + slots[1] + [['def', 2]] + slots[2]
     ops = []
     for _ in range(rng.randint(3, 10) + (3 if raising else 0)):
-        lvl = rng.choice([0, 1, 2, 2])
         bad = 0.25 if failing else 0.0
+        made = [j for j, o in enumerate(ops) if isinstance(o[0], int)]
+        if made and rng.random() < 0.45:
+            # an update of the instance an earlier creation returned (op number j): an attribute assignment or a set() of
+            # own and inherited columns, in any keyword order
+            j = rng.choice(made)
+            top = ops[j][0]
+            if rng.random() < 0.5:
+                c = rng.randint(0, top)
+                ops.append(['assign', j, c, rand_val(rng, c, bad)])
+            else:
+                cs = [c for c in range(top + 1) if rng.random() < 0.6]
+                rng.shuffle(cs)
+                ops.append(['set', j, [[c, rand_val(rng, c, bad)] for c in cs]])
+            continue
+        lvl = rng.choice([0, 1, 2, 2])
         cs = [c for c in range(lvl + 1) if rng.random() < 0.6]
         if 0 not in cs and not (failing and rng.random() < 0.3):
             cs.append(0)
@@ -420,6 +451,28 @@ def corpus():
          'script': [['def', 0], ['listen', 0, 0, ['created', ['raise']]], ['def', 1], ['listen', 1, 1, ['created', ['log']]], ['def', 2],
                     ['listen', 2, 2, ['create', ['postraise', 102]]]],
          'ops': [[1, [[0, 1]]], [1, [[0, 2]]], [2, [[0, 3]]], [2, [[0, 4]]], [0, [[0, 5]]]]},
+        # the flush points syncUpdate() / sync() / pickle.dumps() and the discard point expire() of a lazy instance, with listeners:
+        # each flush is one UPDATE + one after-event (nothing when nothing is held back); what expire() dropped is never written
+        {'kind': 'plain', 'stream': 'valid', 'noread': [5, 6, 7],
+         'lis': [[['updated', ['log']]], [['update', ['log']], ['updated', ['post', 1]], ['updated', ['log']]]],
+         'ops': [['create', 1, [[0, 2]]], ['assign', 1, 1, 0, 9], ['set', 1, 1, [[2, 1], [1, 'x']]], ['pickle', 1, 1], ['pickle', 1, 1],
+                 ['assign', 1, 1, 0, 3], ['expire', 1, 1], ['pickle', 1, 1], ['sync', 1, 1], ['assign', 1, 1, 2, 4], ['syncfull', 1, 1],
+                 ['create', 0, [[0, 1]]], ['pickle', 0, 1], ['assign', 1, 1, 1, 'q'], ['destroy', 1, 1], ['pickle', 1, 1],
+                 ['assign', 1, 1, 1, 'y'], ['syncfull', 1, 1]]},
+        # witness of the open finding inheritable_child_update_events: set() of a child's own column (no before-event), assignment
+        # of an inherited column (no after-event for the instance's class)
+        {'kind': 'chain', 'stream': 'chain',
+         'script': [['def', 0], ['def', 1], ['def', 2], ['listen', 2, 0, ['update', ['log']]], ['listen', 2, 1, ['updated', ['log']]]],
+         'ops': [[2, [[0, 1]]], ['set', 0, [[2, 9]]], ['assign', 0, 0, 5]]},
+        # updates of chain instances at every level: inherited / own columns, set() in several keyword orders, an ill-typed value
+        # after a stored one, the root class, an instance that was never made
+        {'kind': 'chain', 'stream': 'chain',
+         'script': [['def', 0], ['listen', 0, 0, ['update', ['log']]], ['def', 1], ['def', 2], ['listen', 0, 1, ['updated', ['post', 7]]],
+                    ['listen', 2, 2, ['update', ['log']]], ['listen', 2, 3, ['updated', ['log']]], ['listen', 1, 4, ['updated', ['post', 8]]]],
+         'ops': [[2, [[0, 1]]], ['assign', 0, 0, 5], ['set', 0, [[1, 'x'], [2, 2], [0, 6]]], ['assign', 0, 2, 3], ['set', 0, [[2, 'x'], [0, 0]]],
+                 ['set', 0, [[1, 'q'], [0, 'bad'], [2, 1]]], ['set', 0, [[2, 9]]], ['set', 0, []], [0, [[0, 4]]], ['set', 8, [[0, 2]]],
+                 ['assign', 8, 0, 'bad'], [1, [[0, 'bad']]], ['assign', 11, 1, 'z'], [1, [[0, 3], [1, 'w']]], ['assign', 13, 0, 8],
+                 ['set', 13, [[1, None], [0, 2]]], ['assign', 13, 1, 'v']]},
         {'kind': 'chain', 'stream': 'chain',
          'script': [['def', 0], ['listen', 0, 0, ['create', ['post', 1]]], ['listen', 0, 1, ['created', ['post', 2]]], ['def', 1],
                     ['listen', 1, 2, ['created', ['log']]], ['listen', 0, 3, ['created', ['log']]], ['def', 2],
@@ -608,8 +661,18 @@ def _alarm(*_a):
     raise OpTimeout()
 
 
+def _picklable(K):
+    """pickle looks a class up by module and name: the fixture classes are made inside a function"""
+    import sys
+    K.__module__ = __name__
+    setattr(sys.modules[__name__], K.__name__, K)
+
+
 def run_plain(case):
+    # (gc.collect(1) below: the receivers dropped there are young objects -- and die by reference count anyway; a full
+    # collection per listener made a shard of 1500 histories quadratic, because SQLObject keeps every class ever made alive)
     import gc
+    import pickle
     import signal
     from sqlobject import SQLObject, IntCol, StringCol, events
     from sqlobject.sqlite.sqliteconnection import SQLiteConnection
@@ -630,7 +693,7 @@ def run_plain(case):
                 # registered with weak=False and referenced by nobody else: the dispatcher alone keeps it alive
                 events.listen(r, target, sigs[sig], weak=False)
                 del r
-                gc.collect()
+                gc.collect(1)
             else:
                 keep.append(r)
                 events.listen(r, target, sigs[sig])
@@ -673,7 +736,7 @@ def run_plain(case):
                         r = _make_receiver(events, trace, classes, dsig, ['log'], 2000 + j)
                         events.listen(r, B, sigs[dsig])
                         del r
-                        gc.collect()
+                        gc.collect(1)
                 if pos < sub[k]['split']:
                     listen_all(numbered[pos:pos + 1], k, B)
             K = type(SQLObject)('VC19Sub_%d' % k, (B,), {
@@ -683,6 +746,8 @@ def run_plain(case):
             listen_all(list(enumerate(sub[k]['late'])), k, B, base=1000)
     for k in classes:
         k.createTable()
+    for k in classes[:2]:
+        _picklable(k)
     tables = ['t_e', 't_l']
     orig = _wrap(conn, trace, tables + ['t_u'], {'a': 0, 'b': 1, 'c': 2, 'n': 0})
 
@@ -753,6 +818,8 @@ def run_plain(case):
             o.expire()
         elif t == 'syncfull':
             o.sync()
+        elif t == 'pickle':
+            pickle.dumps(o)
         else:
             raise ValueError('unknown op %r' % (op,))
         return 'done'
@@ -840,7 +907,7 @@ def run_chain(case):
                 # weak=False, referenced by nobody else (its clones on the subclasses are weak: they live as long as this one)
                 events.listen(r, classes[l], sigs[sig], weak=False)
                 del r
-                gc.collect()
+                gc.collect(1)
             else:
                 keep.append(r)
                 events.listen(r, classes[l], sigs[sig])
@@ -866,12 +933,26 @@ def run_chain(case):
         return res
 
     steps = []
+    handles = {}          # op number of a creation -> the instance its constructor returned
     try:
-        for lvl, kw in case['ops']:
+        for n, op in enumerate(case['ops']):
             del trace[:]
             try:
-                o = classes[lvl](**dict((COLS[c], v) for c, v in kw))
-                out = ['done', o.id]
+                if isinstance(op[0], int):
+                    lvl, kw = op
+                    o = classes[lvl](**dict((COLS[c], v) for c, v in kw))
+                    handles[n] = o
+                    out = ['done', o.id]
+                elif op[1] not in handles:
+                    out = ['nohandle']
+                elif op[0] == 'assign':
+                    o = handles[op[1]]
+                    setattr(o, COLS[op[2]], op[3])
+                    out = ['done', o.id]
+                else:
+                    o = handles[op[1]]
+                    o.set(**dict((COLS[c], v) for c, v in op[2]))
+                    out = ['done', o.id]
             except Exception as e:  # noqa
                 name = type(e).__name__
                 out = ['exn', EXC.get(name, 'other:' + name)]
@@ -980,6 +1061,8 @@ def cop(op):
         return '(OExpire %s %s)' % (k, z(op[2]))
     if t == 'syncfull':
         return '(OSyncFull %s %s)' % (k, z(op[2]))
+    if t == 'pickle':
+        return '(OPickle %s %s)' % (k, z(op[2]))
     return '(OSelect %s)' % k
 
 
@@ -1022,18 +1105,31 @@ def coq_case(c, o):
         else:
             script.append('RListen %s %s %s' % (CLVL[it[1]], z(it[2]), clis(it[3])))
     steps = []
-    for (lvl, kw), s in zip(c['ops'], o['steps']):
+    for op, s in zip(c['ops'], o['steps']):
+        if isinstance(op[0], int):
+            qop = '(UCreate %s %s)' % (CLVL[op[0]], ckw(op[1]))
+        else:
+            # the instance: level of the creation it refers to, id as that creation returned it (0 = it returned nothing)
+            made = o['steps'][op[1]]['out']
+            top = CLVL[c['ops'][op[1]][0]]
+            rid = z(made[1]) if made[0] == 'done' else '0'
+            if op[0] == 'assign':
+                qop = '(UAssign %s %s %s %s)' % (top, rid, CCOL[op[2]], cval(op[3]))
+            else:
+                qop = '(USet %s %s %s)' % (top, rid, ckw(op[2]))
         out = s['out']
         if out[0] == 'done':
             outc = '(CDone %s)' % z(out[1])
-        elif out[1] in CEXN:
+        elif out[0] == 'exn' and out[1] in CEXN:
             outc = '(CExn %s)' % CEXN[out[1]]
-        else:
+        elif out[0] == 'nohandle':
             outc = 'CBadInput'
+        else:
+            outc = '(CDone (-1))'     # an exception class the model never produces
         rows = ['[%s]' % '; '.join('(%s, %s, %s)' % (z(r[0]), cval(r[1]), 'None' if r[2] is None else '(Some %s)' % CLVL[r[2]])
                                    for r in t) for t in s['tables']]
-        steps.append('{| q_lvl := %s; q_kw := %s; q_out := %s; q_tr := [%s]; q_a := %s; q_b := %s; q_c := %s |}' % (
-            CLVL[lvl], ckw(kw), outc, '; '.join(cev(e, CLVL) for e in s['tr']), rows[0], rows[1], rows[2]))
+        steps.append('{| q_op := %s; q_out := %s; q_tr := [%s]; q_a := %s; q_b := %s; q_c := %s |}' % (
+            qop, outc, '; '.join(cev(e, CLVL) for e in s['tr']), rows[0], rows[1], rows[2]))
     return '(CChain [%s] [%s] [%s])' % ('; '.join(script), '; '.join('[%s]' % '; '.join(z(i) for i in l) for l in o['seen']),
                                         ';\n '.join(steps))
 
@@ -1093,7 +1189,9 @@ def _expect_plain2(tabs, op, pre_tables, pre_handles, post_tables, fired):
         return True, [], pre_tables[k]
     if t == 'syncfull' and rid not in [r[0] for r in pre_tables[k]]:
         return False, None, None          # the row is gone: SQLObjectNotFound (after the pending values were flushed)
-    if t in ('sync', 'syncfull'):
+    if t in ('sync', 'syncfull', 'pickle'):
+        # the three flush points: one UPDATE holding what the instance held back, then the after-event -- nothing when
+        # nothing is held back
         if not pend:
             return True, [], pre_tables[k]
         w = sort_cols(mk_kw(pend))
@@ -1205,6 +1303,13 @@ def oracle_plain(c, o):
             return f
         if any(h[2] for hs in s['handles'] for h in hs):
             return {'what': 'row_update_sig_suppress is still set on an instance after the operation', 'step': i, 'op': op}
+        if ok and op[0] in ('expire', 'sync', 'syncfull', 'pickle'):
+            # nothing is held back after a flush; expire() drops what was held back
+            left = [h[1] for h in s['handles'][k] if h[0] == op[2]]
+            if left and left[0]:
+                return {'what': 'a lazy instance still holds values back after %s' % op[0], 'step': i, 'op': op, 'actual': left[0]}
+            if op[0] == 'expire' and _norm(s['tables']) != _norm(pre_tables):
+                return {'what': 'expire() changed a table', 'step': i, 'op': op, 'expected': pre_tables, 'actual': s['tables']}
         f = _attrs_ok(s) or _audit_ok(c, s)
         if f:
             f['step'] = i
@@ -1221,7 +1326,19 @@ def oracle_chain(c, o):
     every = [(it[2], it[3]) for it in c['script'] if it[0] == 'listen']
     fired = set()
     pre = [[], [], []]
-    for i, ((lvl, kw0), s) in enumerate(zip(c['ops'], o['steps'])):
+    known = None          # the first failure of the known class (the history is judged to its end all the same)
+    for i, (op, s) in enumerate(zip(c['ops'], o['steps'])):
+        if not isinstance(op[0], int):
+            f = _chain_update_ok(c, o, eff, op, s, pre)
+            if f:
+                f['step'] = i
+                f['op'] = op
+                if not f.get('known_class'):
+                    return f
+                known = known or f
+            pre = s['tables']
+            continue
+        lvl, kw0 = op
         # a creation in which an armed one-shot listener / callback is due is a failing operation: not judged
         armed = any(x[1][0] in ('raise', 'postraise') and n not in fired and x[0] in ('create', 'created')
                     for l in range(lvl + 1) for n, x in eff[l])
@@ -1290,6 +1407,73 @@ def oracle_chain(c, o):
             return f
         note_fired(every, s['tr'], fired)
         pre = s['tables']
+    return known
+
+
+def chain_update_asis(eff, top, rid, op):
+    """what the unchanged code does for an update of a chain instance of level `top` (read off inheritance/__init__.py, written
+    here without the Coq model): an assignment of a column owned by level o <= top sends RowUpdateSignal of every class from
+    top down to o (the generated setters pass the assignment on to self._parent), then the owner's UPDATE, RowUpdatedSignal and
+    callbacks; set() of an instance that has a parent sends no RowUpdateSignal of its own, assigns the inherited columns one by
+    one in keyword order, then UPDATEs the own column and sends RowUpdatedSignal of its class.  None = an ill-typed value."""
+    def assign(cc, v):
+        evs = []
+        for a in range(top, cc - 1, -1):
+            evs += deliver(eff[a], 'update', a, rid, {cc: v})[0]
+        return evs + [['w', 'upd', cc, rid, [[cc, v]]]] + after_part(eff[cc], 'updated', cc, rid)
+    if op[0] == 'assign':
+        return assign(op[2], op[3])
+    kw = mk_kw(op[2])
+    evs = deliver(eff[0], 'update', 0, rid, dict(kw))[0] if top == 0 else []
+    for cc, v in kw.items():
+        if cc != top:
+            evs += assign(cc, v)
+    if top in kw:
+        evs.append(['w', 'upd', top, rid, [[top, kw[top]]]])
+    return evs + after_part(eff[top], 'updated', top, rid)
+
+
+def chain_update_plain(top, op):
+    """the updates of a chain instance that involve one class only: an assignment of a column the instance's own class
+    declares, and anything on the root class"""
+    return (op[0] == 'assign' and op[2] == top) or (op[0] == 'set' and top == 0)
+
+
+def _chain_update_ok(c, o, eff, op, s, pre):
+    made = o['steps'][op[1]]['out']
+    if made[0] != 'done':
+        return None if s['out'] == ['nohandle'] else {'what': 'harness: an update without instance ran', 'actual': s['out']}
+    top, rid = c['ops'][op[1]][0], made[1]
+    pairs = [[op[2], op[3]]] if op[0] == 'assign' else op[2]
+    kw = mk_kw(pairs)
+    must = all(val_ok(cc, v) for cc, v in kw.items())
+    ok = s['out'][0] == 'done'
+    if must and not ok:
+        return {'what': 'a valid update of a chain instance raised', 'actual': s['out']}
+    if not must and ok:
+        return {'what': 'an update of a chain instance with an ill-typed value succeeded', 'actual': s['out']}
+    if not ok:
+        return None
+    tr = s['tr']
+    # the values are stored, every other row and column is as before
+    want = [[[r[0], (kw[l] if r[0] == rid and l in kw else r[1]), r[2]] for r in pre[l]] for l in range(3)]
+    if _norm(s['tables']) != _norm(want):
+        return {'what': 'rows of the chain after an update', 'expected': want, 'actual': s['tables']}
+    asis = chain_update_asis(eff, top, rid, op)
+    if _norm(tr) != _norm(asis):
+        return {'what': 'event/write sequence of an update of a chain instance differs from what the setters of the chain are '
+                        'known to do', 'expected': asis, 'actual': tr}
+    # the property: the receivers registered for the instance's class get the before-event exactly once before the writes and
+    # the after-event exactly once after them
+    writes = [j for j, e in enumerate(tr) if e[0] == 'w']
+    for sig, n in (('update', 'before'), ('updated', 'after')):
+        for li, _a in receivers(eff[top], sig):
+            got = [j for j, e in enumerate(tr) if e[0] == 'sig' and e[1] == sig and e[2] == top and e[5] == li]
+            bad = len(got) != 1 or (writes and (got[0] > writes[0] if sig == 'update' else got[0] < writes[-1]))
+            if bad:
+                return {'what': 'an update of an inheritable child: the %s-event reached a receiver of the instance\'s class %d '
+                                'time(s) / on the wrong side of the UPDATEs' % (n, len(got)),
+                        'known_class': 'inheritable_child_update_events', 'listener': li, 'actual': tr}
     return None
 
 
@@ -1300,7 +1484,13 @@ def oracle(c, o):
 
 
 def classify(c, o, f):
-    # no open finding: assign_listener_changes_keyset and suppress_flag_left_set are fixed (480ba65)
+    # (assign_listener_changes_keyset and suppress_flag_left_set are fixed: 480ba65)
+    # inheritable_child_update_events: exactly the updates of a chain instance that involve an inherited column or a child's
+    # set(), observed to do precisely what the generated setters / InheritableSQLObject.set are known to do
+    if c.get('kind') == 'chain' and f.get('known_class') == 'inheritable_child_update_events':
+        op = f.get('op')
+        if op and not isinstance(op[0], int) and not chain_update_plain(c['ops'][op[1]][0], op):
+            return 'inheritable_child_update_events'
     return None
 
 
@@ -1329,7 +1519,8 @@ def distribution(cases, obs):
                 d['listeners'][nm] = d['listeners'].get(nm, 0) + 1
             tabs = [list(enumerate(l)) for l in c['lis']]
         for op, s in zip(c['ops'], o['steps']):
-            nm = op[0] if c['kind'] == 'plain' else 'chain-create-%s' % LVL[op[0]]
+            nm = op[0] if c['kind'] == 'plain' else ('chain-create-%s' % LVL[op[0]] if isinstance(op[0], int) else
+                                                     'chain-%s-%s' % (op[0], LVL[c['ops'][op[1]][0]]))
             d['ops'][nm] = d['ops'].get(nm, 0) + 1
             out = s['out']
             on = out if isinstance(out, str) else (out[0] if out[0] != 'exn' else out[1])
